@@ -712,11 +712,14 @@ static void conn_case(Run &r, Ctx &x, int idlen, bool dgram)
 	bool together = !dgram && n > 1 && x.choose(2) != 0;
 	static const size_t pads[] = {0, 98, 39998};
 	size_t pad = dgram ? pads[x.choose(3)] : 0;    // request content of 2, 100 or 40000 bytes
-	bool own = dgram && x.choose(2) != 0;           // afterwards the connection sends a request of its own (await + push)
+	bool own = dgram && x.choose(2) != 0;           // afterwards the connection sends a request of its own (await + push) and a one-way message
+	// before that a datagram arrives that the connection refuses: a reply nobody waits for / a datagram shorter than the id
+	int stale = own ? (int) x.choose(3) : 0;
+	if (stale == 2 && idlen < 2) stale = 0;
 	bool handles_first = x.choose(2) != 0;          // deferred handles are used before / after the connection dispatched everything
 	const char *grp = dgram ? "dgram" : "conn";
 	std::string desc = fmt("%s connection idlen=%d%s%s%s:", dgram ? "datagram" : "stream backed", idlen, together ? " both requests queued before dispatch" : "", handles_first ? "" : ", handles used after all dispatches", pad ? fmt(", %zu byte requests", pad + 2).c_str() : "");
-	if (own) desc += " then own request 'ping'";
+	if (own) desc += std::string(stale == 1 ? " then an unregistered reply arrives" : (stale == 2 ? " then a 1-byte datagram arrives" : "")) + " then own request 'ping' and one-way message 'pong'";
 	for (auto &q : c.rq) desc += " [id " + hex(q.id.data(), idlen) + ", " + cscriptnm[q.script] + (q.fail && q.script != C_DISCARD ? ", handler returns an error" : "") + "]";
 	r.note("%s", desc.c_str());
 	++r.transitions;
@@ -769,11 +772,21 @@ static void conn_case(Run &r, Ctx &x, int idlen, bool dgram)
 		}
 		for (auto &q : c.rq) use_handle(q);
 	}
-	int own_ret = 0; uint32_t own_id = 0;
+	int own_ret = 0, oneway_ret = -1, await2 = 0; uint32_t own_id = 0;
 	if (own) {
+		if (stale) {
+			std::vector<uint8_t> m(idlen, 0); m[idlen - 1] = 7; m[0] |= 0x80; m.push_back('o'); m.push_back('k');
+			if (stale == 2) m.assign(1, 0x05);
+			ok = ok && write(sv[1], m.data(), m.size()) == (ssize_t) m.size();
+			LIB(mpt::mpt_outdata_recv(&con->out));
+			LIB(mpt::mpt_connection_dispatch(con, conn_handler, &c));
+		}
 		own_ret = LIB(mpt::mpt_connection_await(con, own_reply_handler, 0));
 		own_id = con->cid;
 		if (own_ret >= 0 && (own_ret = (int) LIB(mpt::mpt_connection_push(con, 4, "ping"))) >= 0) own_ret = (int) LIB(mpt::mpt_connection_push(con, 0, 0));
+		// a message without await is one-way: its header is the zero id
+		if ((oneway_ret = (int) LIB(mpt::mpt_connection_push(con, 4, "pong"))) >= 0) oneway_ret = (int) LIB(mpt::mpt_connection_push(con, 0, 0));
+		await2 = LIB(mpt::mpt_connection_await(con, own_reply_handler, 0));
 	}
 	if (srm) LIB(mpt::mpt_stream_flush(srm));
 	std::vector<std::vector<uint8_t>> msgs; bool garbled = false; std::string wtxt = " wire:";
@@ -793,17 +806,30 @@ static void conn_case(Run &r, Ctx &x, int idlen, bool dgram)
 	if (!ok) { r.incomplete("short write on the socketpair"); return; }
 	if (mem) { r.violation(std::string(grp) + ".dispatch|any|memory", desc + " invalid memory access (AddressSanitizer)"); return; }
 	if (own) {
-		// the last datagram is the connection's own request: header = its new id (read back with the header width), not marked, then the payload
+		// the last two datagrams are the connection's own messages: request (new id, unmarked, readable back with the header width) and one-way message (zero id)
+		std::vector<uint8_t> pong, ping; bool have_pong = false, have_ping = false;
+		if (oneway_ret >= 0 && !msgs.empty()) { pong = msgs.back(); msgs.pop_back(); have_pong = true; }
+		if (own_ret >= 0 && own_id && !msgs.empty()) { ping = msgs.back(); msgs.pop_back(); have_ping = true; }
+		const char *st = stale == 1 ? "after-refused-reply" : (stale == 2 ? "after-short-datagram" : "after-dispatch");
 		if (own_ret < 0 || !own_id) r.count("dgram: own request after the dispatch refused (not flagged)");
+		else if (!have_ping || (int) ping.size() < idlen) { flag(r, std::string("dgram.request|") + st + "|not-sent", desc + " own request was accepted but no datagram with an id arrived;" + wtxt); return; }
 		else {
 			uint64_t back = ~(uint64_t) 0;
-			if (msgs.empty() || (int) msgs.back().size() < idlen) { r.violation("dgram.request|after-dispatch|not-sent", desc + " own request was accepted but no datagram with an id arrived;" + wtxt); return; }
-			std::vector<uint8_t> m = msgs.back(); msgs.pop_back();
-			mpt::mpt_message_buf2id(m.data(), idlen, &back);
-			if ((m[0] & 0x80) || back != own_id || m.size() != (size_t) idlen + 4 || memcmp(m.data() + idlen, "ping", 4)) {
-				r.violation("dgram.request|after-dispatch|wrong-header", desc + fmt(" own request id %u + 'ping' went out as ", own_id) + hex(m.data(), std::min<size_t>(m.size(), 24)) + fmt("%s (%zu bytes): header reads back as id 0x%llx", m.size() > 24 ? ".." : "", m.size(), (unsigned long long) back)); return;
+			mpt::mpt_message_buf2id(ping.data(), idlen, &back);
+			if ((ping[0] & 0x80) || back != own_id || ping.size() != (size_t) idlen + 4 || memcmp(ping.data() + idlen, "ping", 4)) {
+				flag(r, std::string("dgram.request|") + st + "|wrong-header", desc + fmt(" own request id %u + 'ping' went out as ", own_id) + hex(ping.data(), std::min<size_t>(ping.size(), 24)) + fmt("%s (%zu bytes): header reads back as id 0x%llx", ping.size() > 24 ? ".." : "", ping.size(), (unsigned long long) back)); return;
 			}
 			r.count("dgram: own request after the dispatches carries its own id");
+		}
+		if (oneway_ret < 0) r.count("dgram: one-way message refused (not flagged)");
+		else if (!have_pong) { flag(r, "dgram.request|after-request|not-sent", desc + " one-way message was accepted but no datagram arrived;" + wtxt); return; }
+		else {
+			std::vector<uint8_t> zero(idlen, 0);
+			if (pong.size() != (size_t) idlen + 4 || memcmp(pong.data(), zero.data(), idlen) || memcmp(pong.data() + idlen, "pong", 4)) {
+				flag(r, "dgram.request|after-request|wrong-header", desc + " one-way message 'pong' (zero id) went out as " + hex(pong.data(), std::min<size_t>(pong.size(), 24)) + fmt("%s (%zu bytes)", pong.size() > 24 ? ".." : "", pong.size())); return;
+			}
+			r.count("dgram: one-way message after an own request carries the zero id");
+			r.count(await2 >= 0 ? "dgram: next await accepted" : "dgram: next await refused (not flagged)");
 		}
 	}
 	for (auto &m : msgs) {
@@ -1044,7 +1070,7 @@ void mc_explore(Run &r, const std::string &job)
 		int l = atoi(job.c_str() + (dg ? 12 : 11));
 		for (int k = 0; k < C_NSCRIPT; ++k) r.require(std::string(dg ? "dgram: " : "conn: ") + cscriptnm[k] + ": exactly one reply on the wire, full id, marked");
 		r.require(std::string(dg ? "dgram: " : "conn: ") + "handler returned an error, exactly one reply on the wire");
-		if (dg) r.require("dgram: own request after the dispatches carries its own id");
+		if (dg) { r.require("dgram: own request after the dispatches carries its own id"); r.require("dgram: one-way message after an own request carries the zero id"); r.require("dgram: next await accepted"); }
 		if (l == 2) r.sample(fmt("%s connection idlen=2: 1..2 requests x {zero id, id} x 9 scripts (no answer, reply, reply twice, mpt_context_reply, defer+late reply, defer+release, dispatch without handler, 300 byte reply, echo of the request) x handler result {0, error} through mpt_connection_dispatch; replies read at the peer", dg ? "datagram" : "stream backed"));
 		dfs(r, [&](Ctx &x) { conn_case(r, x, l, dg); });
 		return;
